@@ -121,7 +121,7 @@ P("C13", [f"{ING}:_validate_pixels", f"{CR}:create", f"{CR}:write_pixels"], "bou
 P("C14", [f"{SEL}:_IndexingMixin._process_slice", f"{SEL}:RangeSelector1D.__getitem__", f"{SEL}:RangeSelector1D.fetch", f"{TOP}:get"], "bounded/C14.py",
   "Proof core: slice/scalar normalisation of every table selector for all integer bounds, and the table read (get: rows lo..hi-1 of every requested plain column, labelled lo.., independent of the column selection, Series for a single name); enum decoding, the selectors' glue and annotate "
   "are covered by the bounded tier.", level="other",
-  unverified=["_tableops.get enum/bytes decoding", "api.annotate (pandas joins)", "the _slice closures of Cooler.chroms()/bins()/pixels()"])
+  unverified=["_tableops.get bytes decoding (astype(U))", "api.annotate (pandas joins)", "the _slice closures of Cooler.chroms()/bins()/pixels()"])
 
 P("C15", [f"{UT}:parse_cooler_uri", "cooler.fileops:_copy", "cooler.fileops:_is_cooler", "cooler.fileops:is_cooler", f"{CR}:create"], "bounded/C15.py",
   "Proof core: URI splitting for all strings, and the branch logic of fileops._copy (behind cp/mv/ln) over a ghost "
